@@ -486,6 +486,18 @@ class ProgGen(object):
                 args.append(lit(SI, self.r.randint(0, 5)))
             else:
                 args.append(self.expr(at, scope, d - 1))
+        defs = f.get("defs")
+        if defs and self.r.random() < 0.8:
+            # leave out defaulted parameters / pass some by keyword: positional prefix, then keywords in any order
+            n = len(args)
+            first_def = min(i for i, dv in enumerate(defs) if dv.get("e") != "none")
+            k = self.r.randint(first_def, n)
+            kw = []
+            for i in range(k, n):
+                if defs[i].get("e") == "none" or self.r.random() < 0.5:
+                    kw.append({"p": f["ps"][i], "v": args[i]})
+            self.r.shuffle(kw)
+            return {"e": "call", "fi": fi + 1, "args": args[:k], "kw": kw}
         return {"e": "call", "fi": fi + 1, "args": args}
 
     # -- statements -------------------------------------------------------
@@ -796,13 +808,21 @@ class ProgGen(object):
         if kind == "recur":
             f["fuel"] = True
         f["oname"] = f["name"]
-        if "ovl" in self.feat and f["pts"] and self.r.random() < 0.6:
+        if "kwd" in self.feat and kind == "plain" and pts and isinstance(pts[-1], str) and self.r.random() < 0.7:
+            # (opt-in feature) default values for a suffix of the scalar parameters; such a function is not overloaded
+            j = len(pts)
+            while j > 0 and isinstance(pts[j - 1], str) and self.r.random() < 0.7:
+                j -= 1
+            j = min(j, len(pts) - 1)
+            f["defs"] = [{"e": "none"}] * j + [self.literal(t) for t in pts[j:]]
+        elif "ovl" in self.feat and f["pts"] and self.r.random() < 0.6:
             sig = tkey(["x"] + f["pts"])
             groups = {}
             for h in self.funs:
                 groups.setdefault(h["oname"], []).append(h)
             for on, g in groups.items():
-                if all(h["pts"] for h in g) and all(tkey(["x"] + h["pts"]) != sig for h in g) and len(g) < 3:
+                if all(h["pts"] for h in g) and all(tkey(["x"] + h["pts"]) != sig for h in g) and len(g) < 3 \
+                        and not any(h.get("defs") for h in g):
                     newname = on if on.startswith("ov") else "ov" + g[0]["name"]
                     for h in g:
                         h["oname"] = newname
@@ -1201,7 +1221,7 @@ def generate(seed, n, features=None, emph=(), extras=True):
     for i in range(n):
         g = ProgGen(seed * 100003 + i, features=features, emph=emph)
         if extras and features is None and i % 3 == 2:
-            g.feat |= {"tup", "coll", "filt", "adt"}
+            g.feat |= {"tup", "coll", "filt", "adt", "kwd"}
             if "try" in g.feat and i % 2:
                 g.enable_payload()
         out.append(g.program("g%d_%d" % (seed, i)))
